@@ -25,6 +25,8 @@ type ClosureOpts struct {
 	Validate bool
 	// OnStep is called after every controller step with the calls it made.
 	OnStep func(ev Event, log []*Call, rr ReconcileResult, l *Live)
+	// Resume: first remove the rolling-update-paused / rollout-frozen annotations (a legal user action).
+	Resume bool
 	// SkipJumps: do not perform the +3/+6/+11 min persistence jumps.
 	SkipJumps bool
 	// KeepRounds: keep running this many extra rounds after the fixpoint (default 0).
@@ -184,6 +186,15 @@ func Closure(t *testing.T, sc *Scenario, s *State, o ClosureOpts) ClosureResult 
 	InBubble(t, s.Now, func() {
 		l := NewLive(s, sc.Cfg)
 		cur := s
+		if o.Resume {
+			for _, e := range s.EDSs() {
+				for _, k := range []string{"rolling-update-paused", "rollout-frozen"} {
+					if _, ok := Annot(e, k); ok {
+						cur = Apply(l, cur, Event{K: "annotate", A: nn(e), B: k + "-"}, sc.Tpls).Next
+					}
+				}
+			}
+		}
 		stable := 0
 		lastKey := ""
 		validated := false
